@@ -93,7 +93,7 @@ Qed.
 (* C07: the hostname helpers are the hostname-level functions applied to the parsed host *)
 Theorem get_normalized_hostname_spec e u amp :
   get_normalized_hostname e u amp false =
-  match urlsplit e (ensure_protocol (strip u) (lit "http")) with
+  match urlsplit e (ensure_protocol (strip (strip_controls u)) (lit "http")) with
   | Exc ValueError => Ok None
   | Exc x => Exc x
   | Ok sp => match hostname sp with
@@ -108,7 +108,7 @@ Qed.
 
 Theorem get_fingerprinted_hostname_spec e t u ss :
   get_fingerprinted_hostname e t u false ss =
-  match urlsplit e (ensure_protocol (strip (lower u)) (lit "http")) with
+  match urlsplit e (ensure_protocol (strip (strip_controls (lower u))) (lit "http")) with
   | Exc ValueError => Ok None
   | Exc x => Exc x
   | Ok sp => match hostname sp with
